@@ -425,6 +425,11 @@ def witness(c, reg, ctx, pr, outcome, unit):
     if any("defaultdict" in str(t) or "callable" in str(t) for t in types.values()):
         return skip("input-type-not-buildable")
 
+    if any(k.startswith("set.") for k in reg.boundary) and any("set[" in str(t) for t in types.values()):
+        # the property module models extra methods of a set subclass (EmptyableSet.when_next_empty): the driver would
+        # build plain sets
+        return skip("input:set-subclass-modelled")
+
     pc = list(ctx.pc)
     in_terms = zexprs(VList([v for k, v in ctx.inputs.items() if k not in c.ghost]), [])    # ghost parameters do not exist natively
     in_consts, _ = symbols(in_terms)
